@@ -9,7 +9,7 @@ SYMX = ("bounded symbolic execution of the real norminette code (symx: import-ho
 TRUST = ("z3 5.1; CPython; the symx proxies/rewriter (cross-validated on sampled witnesses of every explored class against the "
          "native implementation); the independent oracle named in the evidence; bounds as listed in the evidence file")
 CHECKS = {
- "C01": dict(text="Every member of the conforming-program family (micro skeletons with every operator slot symbolic + generated .c/.h programs with symbolic identifier/constant/literal/operator slots) is analysed by the real pipeline on symbolic text; on every path class: no Error-level diagnostic, no fatal error, no exception.",
+ "C01": dict(text="Every member of the conforming-program family (micro skeletons with every operator slot symbolic, generated .c/.h programs with symbolic identifier/constant/literal/operator slots, hand-written boundary / corner programs incl. constants of every C form, and a comment line of three forms at every boundary outside function bodies) is analysed by the real pipeline on symbolic text; on every path class: no Error-level diagnostic, no fatal error, no exception.",
              ref="4.1", tech="symbolic execution of the whole pipeline (Lexer + Registry.run + all rules) on program text with symbolic slots (symx + z3)"),
  "C12": dict(text="Two real lexer runs per path class on the same symbolic characters: the window lexed as is, and with a splice inserted at each token boundary / each punctuator respelled as trigraph or digraph; (type, value) sequences must be equal. Pipeline level: solver-chosen subsets of { } [ ] occurrences of conforming programs respelled; (code, line) multiset unchanged.",
              ref="4.12", tech="two-run symbolic execution of the lexer / pipeline on shared symbolic characters (symx + z3)"),
@@ -31,11 +31,11 @@ CHECKS = {
              ref="4.3", tech="symbolic execution of the pipeline on generated boundary texts + state injection with symbolic-length strings (symx Rope, z3 LIA)"),
  "C04": dict(text="The real main() is executed symbolically with the per-file analysis replaced by a nondeterministic stub (symbolic file class and diagnostic levels): for every sequence of 0..N files of the four classes, both formats, explicit / directory / repeated arguments: one verdict per file, OK iff no Error-level diagnostic, exit 0 iff all OK, no internal exception.",
              ref="4.4", tech="symbolic execution of norminette.__main__.main with a nondeterministic analysis stub (symx + z3); replay through the real CLI"),
- "C05": dict(text="Tokenizer totality by one-step induction (every window of <=N symbolic ASCII characters, every start position: get_next_token returns and raises nothing) and pipeline totality on text-level symbolic edits (one inserted lexeme of solver-chosen spelling at every token boundary, cuts, deletions, swaps): Registry.run returns or raises CParsingError, never another exception, never hangs.",
+ "C05": dict(text="Tokenizer totality by one-step induction (every window of <=N symbolic ASCII characters plus longer family windows, every start position: get_next_token returns and raises nothing), pipeline totality on text-level symbolic edits (one inserted or REPLACING lexeme of solver-chosen spelling at every token boundary, own-line fragments, junk lines, cuts, deletions, swaps): Registry.run returns or raises CParsingError, never another exception, never hangs; and unbounded repetition: 41 constructs repeated under a call-depth monitor and natively 1500 / 3000 times.",
              ref="4.5", tech="symbolic execution of the lexer step and of the whole pipeline on symbolically edited program text (symx + z3); hang candidates replayed natively"),
  "C06": dict(text="Footprint invariant checked after every explored pipeline run (process-global state reachable from the analysis is unchanged, whatever the file: clean, erroneous, fatal or crashing) - one inductive step that covers histories of any length; plus a z3 query that the stable sort of the loaded rule priorities cannot depend on the import order, re-import under permuted directory listings, and direct A;B vs B runs.",
              ref="4.6", tech="state-footprint invariant on symbolically explored runs (symx + z3) + z3 sort-stability query over the loaded priorities"),
- "C07": dict(text="Monitor on every explored pipeline run (symbolic edits at every token boundary): each main-loop iteration consumes >= 1 token, segments tile the token stream, and an unrecognised token always ends the run with the fatal CParsingError (never a verdict).",
+ "C07": dict(text="Monitor on every explored pipeline run (symbolic edits at every token boundary): each main-loop iteration consumes >= 1 token, segments tile the token stream, and an unrecognised token always ends the run with the fatal CParsingError (never a verdict); a junk line that cannot begin any statement never leaves the file OK!; conforming programs (incl. commented variants): one statement per line, line-aligned, scope back at file level after each function; violating variants: scope back at file level after each function.",
              ref="4.7", tech="symbolic execution of the pipeline with a test-side monitor on Context.pop_tokens (symx + z3)"),
  "C08": dict(text="Comparator laws (irreflexive, asymmetric, transitive, total up to the printed key) of the real Error.__lt__/Highlight.__lt__ and ascending printed order after the real Errors.__iter__ sort, for symbolic diagnostics with unbounded integer positions; every witness is pushed through both real formatters and the outputs compared.",
              ref="4.8", tech="symbolic execution of the comparators and of list.sort driven by them (symx + z3 LIA); formatters compared natively on solver witnesses"),
